@@ -82,6 +82,8 @@ def _formula_sets(tier):
     intf = [f for f in F.F(1, F.unary_ops(Iq), F.binary_ops(Iq), [(F.PX, F.PY, F.X)])] + \
         [('pred', '>=', t, F.C0) for t in F.arith_terms(1) if t[0] not in ('sqrt', 'ln', 'log', 'exp')] + [f for f in F.patterns()][:12]
     sets.append(('IntData', intf, (-1, 0, 2), 3))
+    # variables DECLARED int that receive samples with a fractional part (the declared type is not a conversion: the robustness is that of the samples supplied)
+    sets.append(('IntDecl', intf[::2], (-1.0, 0.5, 1.75), 3))
     # three variables
     Z = ('var', 'z')
     PZ = ('pred', '>', Z, F.C0)
@@ -208,6 +210,8 @@ def run_shard(shard, tier, res):
         text = 'out = ' + F.pr(f)
         res.formulas += 1
         variants = [False, True] if shard['tag'] in ('F1', 'Unused', 'IntData') else [False]
+        if shard['tag'] == 'IntDecl':
+            variants = [True]
         # structured presentation: the variables are fields (m.x / m.inner.x) of one variable whose samples are objects
         if shard['tag'] in ('Arith', 'Patterns', 'ThreeVars', 'Unused') or (shard['tag'] in ('F1', 'F2', 'Chain3') and res.formulas % 3 == 0):
             variants = variants + ['nested' if res.formulas % 2 else 'flat']
@@ -217,7 +221,7 @@ def run_shard(shard, tier, res):
             try:
                 if struct:
                     spec = impl.build('dt_off', text, decl, struct=struct)
-                elif shard['tag'] == 'IntData':
+                elif shard['tag'] in ('IntData', 'IntDecl'):
                     spec = impl.build('dt_off', text, decl, var_type='int' if combined else 'float')
                 else:
                     spec = impl.build('dt_off', text, decl, combined=combined)
@@ -245,7 +249,7 @@ def run_shard(shard, tier, res):
                 if struct:
                     case['struct'] = struct
                     res.flags['evaluations_on_structured_samples'] += 1
-                if shard['tag'] == 'IntData':
+                if shard['tag'] in ('IntData', 'IntDecl'):
                     case.update(combined=False, var_type='int' if combined else 'float')
                 if shard['tag'] == 'Big':
                     case['exact'] = True
